@@ -219,7 +219,35 @@ def run(ctx: Ctx) -> Result:
             r.count('published_records_rechecked', sum(len(b) for b in rd.rec.published))
             r.count('complex_events_rechecked', len(rd.cerec.events))
 
-        run_cases(ctx, cases(), res, per_case=per_case, use_ref=False)
+        kept = []
+
+        def tee(gen):
+            for c in gen:
+                kept.append(c)
+                yield c
+        run_cases(ctx, tee(cases()), res, per_case=per_case, use_ref=False)
+        # the same histories once more WITHOUT looking at the decider between the steps (the observation above serialises
+        # every run after every step, and a look is not always harmless): what was published must still read the same
+        for case in kept:
+            if res.violations:
+                break
+            rd = RealDecider(case.phens, case.cache)
+            for op in case.ops:
+                rd.do_quiet(op)
+            res.count('quiet_replays')
+            bad = None
+            for batch in rd.rec.published:
+                for obj, text in batch:
+                    if obj.to_json_str() != text:
+                        bad = (text, obj.to_json_str())
+                        break
+                if bad:
+                    break
+            if bad:
+                res.violations.append(Violation(
+                    'published-snapshot-changed',
+                    f"without any look at the decider between the steps, a run record handed to a subscriber later changed: "
+                    f"{bad[0][:90]} -> {bad[1][:90]}", {**case.to_json(), 'quiet': True}))
     finally:
         RealDecider.__init__ = orig_init
     # "announced exactly once by the instance that finished it" when the SAME run is finished by a peer and locally at the same
